@@ -46,6 +46,16 @@ def cases(tier: str, rng: random.Random) -> List[Case]:
                   ("VObj", N(G.C_DATA), [P(G.S("a"), G.I(1)), P(G.S("b"), G.I(5))])]:
             for m in ("sync", "async"):
                 out.append(std_case(v, x, m, tag="a:typev"))
+    # several type validators for different types in one tree (each names its own type when it rejects)
+    tv = lambda t_, ps=(): ("Scalar", ("KType", t_), None, [], list(ps), [])
+    TI, TS, TD = ("TInt",), ("TStr",), ("TDict",)
+    for vv in (("NTupleV", [tv(TI, [("PUser", N(0))]), tv(TS), tv(TD)], None, Some(("CoTupleOrList",))),
+               ("UnionV", [tv(TI, [("PUser", N(0))]), tv(TS, [("PUser", N(0))]), tv(("TClass", N(G.C_PLAIN)))]),
+               ("DictAnyV", [P(G.S("a"), tv(TI, [("PUser", N(0))])), P(G.S("b"), tv(TS))], None, None, False)):
+        for x in (("VTuple", [G.S("x"), G.I(1), G.I(2)]), ("VTuple", [G.I(1), G.S("x"), ("VDict", [])]), G.F1, G.NONE,
+                  ("VDict", [P(G.S("a"), G.S("no")), P(G.S("b"), G.I(3))]), ("VDict", [P(G.S("a"), G.I(1)), P(G.S("b"), G.S("ok"))])):
+            for m in ("sync", "async"):
+                out.append(std_case(vv, x, m, tag="a:typev-many"))
     # equality and None validators
     for mt in [G.I(1), G.TRUE, G.F1, G.D1, G.S("a"), G.B(b"a"), G.DATE1, G.DT1, G.UUID1, G.I(0), G.FALSE, G.F0, G.FN0]:
         for pre in ([], [("ProcUser", N(1))]):
@@ -105,7 +115,7 @@ def oracle(c: Case) -> Optional[dict]:
     if t == "NoneV":
         return _oracle_none(c)
     if t != "Scalar":
-        return None
+        return _oracle_nested_type_errors(c)
     aps = v.predicates_async or []
     if c.mode == "sync" and aps:
         if type(c.exc) is AssertionError:
@@ -158,6 +168,45 @@ def oracle(c: Case) -> Optional[dict]:
     if not ok:
         return {"signature": "C02:reject-mismatch",
                 "what": f"expected Invalid({err!r}, {value!r}), got {got!r}"}
+    return None
+
+
+def _invalid_nodes(inv, depth: int = 0):
+    """Every Invalid below (and including) [inv] in a result tree."""
+    from koda_validate.errors import ContainerErr, IndexErrs, KeyErrs, MapErr, SetErrs, UnionErrs
+    if type(inv) is not Invalid or depth > 40:
+        return
+    yield inv
+    e = inv.err_type
+    kids = []
+    if type(e) is IndexErrs:
+        kids = list(e.indexes.values())
+    elif type(e) is KeyErrs:
+        kids = list(e.keys.values())
+    elif type(e) is UnionErrs:
+        kids = list(e.variants)
+    elif type(e) is SetErrs:
+        kids = list(e.item_errs)
+    elif type(e) is ContainerErr:
+        kids = [e.child]
+    elif type(e) is MapErr:
+        for kv in e.keys.values():
+            kids += [k for k in (kv.key, kv.val) if k is not None]
+    for k in kids:
+        yield from _invalid_nodes(k, depth + 1)
+
+
+def _oracle_nested_type_errors(c: Case) -> Optional[dict]:
+    """Scalar validators inside a composed tree: a type error names the type of the validator that raised it
+    (each instance its own - nothing about it may be shared between instances of one validator class)."""
+    if c.exc is not None or type(c.raw) is not Invalid:
+        return None
+    for n in _invalid_nodes(c.raw):
+        t_ = getattr(n.validator, "_TYPE", None)
+        if type(n.err_type) is TypeErr and isinstance(t_, type) and n.validator.coerce is None \
+                and n.err_type.expected_type is not t_:
+            return {"signature": "C02:type-error-names-another-type",
+                    "what": f"{n.validator!r} rejected {n.value!r} with {n.err_type!r}; its own type is {t_!r}"}
     return None
 
 
@@ -230,7 +279,7 @@ def overlaps(tier: str, rng: random.Random):
                 if k == 3 and rng.random() < (0.8 if tier == "quick" else 0.0):
                     continue
                 n_sets += 1
-                v, c = overlap_violation("C02", vt, [], list(xts), 300 if tier == "quick" else 20000)
+                v, c = overlap_violation("C02", vt, [], list(xts), 300 if tier == "quick" else 2500)
                 n_sched += c
                 if v and not bad:
                     bad.append(v)
